@@ -13,6 +13,8 @@ head-formula atom are merged by `IntervalSet`.  Proved:
                                     replacing its variables is rewriting the instance (same term, bookkeeping, rejections)
   * `term_conversion_preserves_value`  `theory_term_to_term` (arguments of head-formula atoms, n-fold prefixes; transformers/head.py)
                                     keeps the value of the term under every assignment: arithmetic, constant folding, tuples
+  * `aux_atom_identifies_instance`  `get_variables` (transformers/head.py): the auxiliary atom of a head formula carries exactly
+                                    the formula's variables, each once, ordered by name; equal auxiliary atoms, equal instance
   * `max_shift_is_max` / `future_sign_recorded`  `max_shift` ends as the maximum look-ahead over all instances that are
                                     not replaced; every replaced instance is recorded as a future predicate with its own sign
   * `symbol_roundtrip`              `create_symbol` applied to the theory term by which clingo presents a ground symbol
@@ -36,6 +38,7 @@ import TelProofs.TimeArgProofs
 import TelProofs.SymRoundTrip
 import TelProofs.TimeArgSubst
 import TelProofs.TermConvProofs
+import TelProofs.HeadVarsProofs
 
 namespace TelProofs.C06
 open TelSpec TelModel TelProofs
@@ -99,6 +102,17 @@ example :
     (convTerm Generated.headTablePy (.fn "p" [.fn "+" [.fn "-" [.var "X", .num 2], .num 1], .fn "-" [.fn "+" [.num 2, .num 3], .var "X"],
         .tuple [.num 1, .num 2]])).toOption.bind (PTerm.eval (fun _ => .num 5)) =
       some (.fn "p" [.num 4, .num 0, .fn "" [.num 1, .num 2] true] true) := by rfl
+
+/-- **variables of a head formula pass through the auxiliary atom**: `get_variables` returns exactly the variables that
+    occur in the theory atom, each once, in the order of their names; so two ground instances of a rule `&tel{φ} :- B` whose
+    auxiliary atoms `__aux_i(vars, t)` coincide have the same head formula — every instance of the rule keeps its own φ -/
+theorem aux_atom_identifies_instance (t : HTerm) :
+    (∀ x, x ∈ getVariables t ↔ x ∈ t.varsOf) ∧ (getVariables t).Pairwise (· < ·) ∧
+    ∀ σ σ' : String → HTerm, (getVariables t).map σ = (getVariables t).map σ' → t.subst σ = t.subst σ' :=
+  ⟨mem_getVariables t, getVariables_sorted t, aux_identifies_instance t⟩
+
+/-- non-vacuity: `&tel { > p(Y, f(X)) | q(X) }` -/
+example : getVariables (.fn "|" [.fn ">" [.fn "p" [.var "Y", .fn "f" [.var "X"]]], .fn "q" [.var "X"]]) = ["X", "Y"] := by decide
 
 /-- `max_shift` after an atom term: at least every look-ahead that is not replaced, and attained -/
 theorem max_shift_is_max (rf ff fp : Bool) (t : ATerm) (st : TState) (t' : RTerm) (st' : TState)
